@@ -1,5 +1,5 @@
 CONSTANTS MaxLen = 5
-  Ops = {"RefreshA","RefreshB","Destroy","GetHandle","Write"}
+  Ops = {"RefreshA","RefreshB","RefreshN","Destroy","GetHandle","Write"}
 SPECIFICATION Spec
 INVARIANTS TypeOK LiveHandlesAreConfigured NoCfgMeansConsole RoutesAsConfigured Emit
 PROPERTIES SecondRefreshRejected
